@@ -61,7 +61,7 @@ Definition c12_write_after_close : Prop :=
   forall cfg first evs tag rq q x,
     cc_closed hpack_state (cli_run cfg first evs) = true ->
     cst_ctx (cli_run cfg first evs) tag = None ->
-    cst_ctx (cli_run cfg first (evs ++ [CEvSubmit tag rq q])) tag = Some x ->
+    cst_ctx (cli_run cfg first (evs ++ [CEvSubmit tag rq q; CEvSubmitCheck tag])) tag = Some x ->
     ct_err x <> None.
 
 (* ---------- examples ---------- *)
@@ -79,7 +79,7 @@ Proof. vm_compute. reflexivity. Qed.
 (* the server goes silent and the connection is cut: the request in flight is answered with an
    error, a request handed over afterwards is answered by Write *)
 Example c12_ex_cut :
-  let c := cli_run ex_cfg [] [CEvSubmit 0 ex_get true; CEvWLIn; CEvWriteFail; CEvRL RLEof; CEvWLDone; CEvSubmit 1 ex_get false] in
+  let c := cli_run ex_cfg [] [CEvSubmit 0 ex_get true; CEvWLIn; CEvWriteFail; CEvRL RLEof; CEvWLDone; CEvSubmit 1 ex_get true; CEvSubmitCheck 1] in
   (cst_dead c, forallb ctx_answered (cc_ctxs hpack_state c)) = (true, true).
 Proof. vm_compute. reflexivity. Qed.
 
@@ -89,18 +89,19 @@ Example c12_ex_write_failure_streamed :
   (existsb is_deadlock tr, map (fun r => snd (fst r)) (results_of tr)) = (false, [CEWrite]).
 Proof. vm_compute. reflexivity. Qed.
 
-(* statement (5) is false of the model as the code stands: DATA with END_STREAM on a stream
-   that has had no HEADERS is delivered as a success *)
-Example c12_nil_without_headers :
+(* DATA with END_STREAM on a stream that has had no HEADERS is not a response (this used to be
+   delivered as a success) *)
+Example c12_ex_data_before_headers :
   map (fun r => (snd (fst r), cr_status (snd r)))
       (results_of (cli_tr ex_cfg [] [CEvSubmit 0 ex_get true; CEvWLIn; CEvRL (ex_data 1 true [97; 98]); CEvReceive 0]))
-  = [(CENil, 0%Z)].
+  = [(CEMalformed, 0%Z)].
 Proof. vm_compute. reflexivity. Qed.
 
-(* a body reader that fails: the stream is reset, the request stays queued and is answered by
-   nobody (only the cancel timer, when there is one, ends it) *)
-Example c12_reader_failure_unanswered :
-  let c := cli_run ex_cfg [] [CEvSubmit 0 (ex_post (CStream [([1; 2], RNil); ([], RFail)] (-1))) true; CEvWLIn; CEvWLOut] in
-  (cli_trace c, map ctx_answered (cc_ctxs hpack_state c), cc_reqQueued hpack_state c)
-  = ([COHeaders 1 false [65; 129; 159; 131; 132; 135; 186]; COData 1 false [1; 2]; COBodyClosed 0; CORst 1 2], [false], [(1, 0)]).
+(* a body reader that fails: the stream is reset and the request answered at once (it used to
+   stay queued for the cancel timer, if any, to end) *)
+Example c12_ex_reader_failure :
+  let c := cli_run ex_cfg [] [CEvSubmit 0 (ex_post (CStream [([1; 2], RNil); ([], RFail)] (-1))) true; CEvWLIn; CEvWLOut; CEvReceive 0] in
+  (map (fun o => match o with COHeaders _ _ _ => 1 | COData _ _ _ => 2 | CORst _ code => 10 + code | _ => 0 end) (cli_trace c),
+   map (fun r => snd (fst r)) (results_of (cli_trace c)), cc_reqQueued hpack_state c, cc_open hpack_state c)
+  = ([1; 2; 0; 12; 0; 0], [CEBody], [], 0%Z).
 Proof. vm_compute. reflexivity. Qed.
